@@ -84,6 +84,9 @@ pub fn bytes_workload(ctx: &mut Ctx, shard: usize, nshards: usize, salt: u64, n_
 #[derive(Debug)]
 struct Framing {
     hdr: obs::Hdr,
+    /// the same accessors called with method syntax on the *concrete* type (where an inherent method of the
+    /// same name, if one exists, shadows the trait's)
+    concrete: obs::Hdr,
     padding: Option<Option<u8>>,
 }
 
@@ -94,7 +97,8 @@ fn framing_of(ty: Option<Ty>, generic: bool, b: &[u8]) -> Result<Result<(Framing
             ($T:ty) => {{
                 let p = <$T>::parse(b)?;
                 parser_returned();
-                Ok((Framing { hdr: obs::hdr(&p), padding: Some(p.padding()) }, <$T>::PACKET_TYPE))
+                let concrete = obs::Hdr { version: p.version(), type_: p.type_(), subtype: p.subtype(), count: p.count(), length: p.length() };
+                Ok((Framing { hdr: obs::hdr(&p), concrete, padding: Some(p.padding()) }, <$T>::PACKET_TYPE))
             }};
         }
         if generic {
@@ -110,7 +114,25 @@ fn framing_of(ty: Option<Ty>, generic: bool, b: &[u8]) -> Result<Result<(Framing
                 Packet::PayloadFeedback(_) => 206,
                 Packet::Unknown(_) => 0,
             };
-            return Ok((Framing { hdr: obs::hdr(&p), padding: obs::packet_padding(&p) }, pt));
+            let concrete = obs::Hdr { version: p.version(), type_: p.type_(), subtype: p.subtype(), count: p.count(), length: p.length() };
+            // and the typed value inside the variant, again with method syntax on its own type
+            macro_rules! inner {
+                ($x:expr) => {
+                    obs::Hdr { version: $x.version(), type_: $x.type_(), subtype: $x.subtype(), count: $x.count(), length: $x.length() }
+                };
+            }
+            let inner = match &p {
+                Packet::App(x) => inner!(x),
+                Packet::Bye(x) => inner!(x),
+                Packet::Rr(x) => inner!(x),
+                Packet::Sdes(x) => inner!(x),
+                Packet::Sr(x) => inner!(x),
+                Packet::TransportFeedback(x) => inner!(x),
+                Packet::PayloadFeedback(x) => inner!(x),
+                Packet::Unknown(x) => inner!(x),
+            };
+            let concrete = if inner != concrete { inner } else { concrete };
+            return Ok((Framing { hdr: obs::hdr(&p), concrete, padding: obs::packet_padding(&p) }, pt));
         }
         match ty {
             Some(Ty::Sr) => fr!(SenderReport),
@@ -123,7 +145,8 @@ fn framing_of(ty: Option<Ty>, generic: bool, b: &[u8]) -> Result<Result<(Framing
             None => {
                 let p = Unknown::parse(b)?;
                 parser_returned();
-                Ok((Framing { hdr: obs::hdr(&p), padding: None }, 0))
+                let concrete = obs::Hdr { version: p.version(), type_: p.type_(), subtype: p.subtype(), count: p.count(), length: p.length() };
+                Ok((Framing { hdr: obs::hdr(&p), concrete, padding: None }, 0))
             }
         }
     })
@@ -221,6 +244,9 @@ pub fn check_c08(ctx: &mut Ctx, input: &[u8]) {
                     }
                     // header accessors
                     let exp = obs::Hdr { version: b[0] >> 6, type_: b[1], subtype: b[0] & 0x1f, count: b[0] & 0x1f, length: dec::declared_len(b) };
+                    if fr.concrete != exp && fr.hdr == exp {
+                        broken.push(format!("header accessors called on the concrete type report {:?}, the bytes say {:?}", fr.concrete, exp));
+                    }
                     if fr.hdr != exp {
                         broken.push(format!("header accessors report {:?}, the bytes say {:?}", fr.hdr, exp));
                     }
